@@ -1674,6 +1674,10 @@ ARM_REQ_FIELDS = ["on_stop", "on_cont", "on_shutdown", "on_cancel", "on_info"]
 ARM_REQ_SHORT = ["stop", "cont", "shutdown", "cancel", "info", "entry", "expiry"]
 # which kinds of request a property's statements are about (Properties/Arms.v, block C..)
 ARM_RELEVANT = {"C09": {5, 6}, "C10": {3}, "C11": {2, 5, 6}, "C12": {0, 1, 4}}
+# single (loop, request) arms a property is about in addition: C11 states that BOTH cancel arms of the retry-delay loop
+# end the wait (C11_source_delay_cancel_arms): the dispatcher nudges a unit out of its retry delay with OtherCancel when
+# the unit's own shutdown request was consumed earlier
+ARM_RELEVANT_PAIRS = {"C11": {(4, 3)}}
 ARM_EVENT_NAMES = ["tick", "interval-expiry(terminate)", "interval-expiry", "grace-expiry", "leak-expiry",
                    "child-exit(ok)", "child-exit(fail)", "pipes-closed", "Stop", "Continue", "Shutdown(INT)",
                    "Shutdown(TERM)", "Shutdown(HUP)", "Shutdown(QUIT)", "Shutdown(second)", "OtherCancel", "GetInfo"]
@@ -1818,7 +1822,8 @@ def _arms_wrap_finish(chk, prop, rg):
         if ARM_TRANSLATOR not in tb:
             tb.append(ARM_TRANSLATOR)
         cov = dict(extra_cov or {})
-        cov["arm_table"] = dict(loops=ARM_LOOPS, requests=ARM_REQS, property_requests=sorted(ARM_REQS[k] for k in ARM_RELEVANT[prop]),
+        cov["arm_table"] = dict(loops=ARM_LOOPS, requests=ARM_REQS, property_requests=sorted(ARM_REQS[k] for k in ARM_RELEVANT[prop]) +
+                                sorted(f"{ARM_LOOPS[l]}:{ARM_REQS[r]}" for (l, r) in ARM_RELEVANT_PAIRS.get(prop, ())),
                                 translated=bool(rg.get("ok")), translator_messages=rg.get("errors") or [],
                                 checker_cmd="arm_table > coq/gen/GenArmTable.v; make -C coq Proofs/ArmBridge.vo "
                                             "Properties/Arms.vo; Print Assumptions")
@@ -1901,7 +1906,7 @@ def arms_gate(chk, prop, gate=None):
     hit = False
     for (loop, req), d in sorted(keys.items()):
         chk.count(f"arm_table_differs:{ARM_SHORT[loop]}:{ARM_REQ_SHORT[req]}")
-        if req not in relevant:
+        if req not in relevant and (loop, req) not in ARM_RELEVANT_PAIRS.get(prop, ()):
             continue
         hit = True
         detail = dict(
